@@ -2,6 +2,7 @@ SPECIFICATION GSpec
 INVARIANT GapInWindow
 INVARIANT Increasing
 CONSTANTS
+  NeedPred = FALSE
   MaxD = 0
   Level2 = "core"
 CHECK_DEADLOCK FALSE
